@@ -191,7 +191,7 @@ def evaluate(e, env):
                     for k_, x_ in env.items():          # constants / stand-ins the analysis supplied (imported names such as MULT_ONE, constructors)
                         if isinstance(k_, str) and (k_.isupper() or isinstance(x_, (PyFn, ClassRef)) or k_ in ("__classes__", "__functions__", "__classdefs__")) and "." not in k_: cenv_[k_] = x_
                     cenv_.update({"__module__": mod, "__depth_const__": env.get("__depth_const__", 0) + 1})
-                    try: v_ = evaluate(st_.value, cenv_) if env.get("__depth_const__", 0) < 4 else None
+                    try: v_ = evaluate(st_.value, cenv_) if env.get("__depth_const__", 0) < 10 else None
                     except (Unsupported, Raised): break
                     return v_
         if e.id in env.get("__assigned__", ()): raise Raised("UnboundLocalError", "local variable %r referenced before assignment" % e.id)      # a local of the interpreted function read before it is bound
